@@ -838,3 +838,239 @@ Proof.
 Qed.
 
 End Systems.
+
+(* ---------------------------------------------------------------------------------------------- *)
+(* hybrid plants: the PTI/PTOs of the shaft lines are the objects listed on the switchboards          *)
+Section Hybrid.
+Variable fresh : string.
+
+Definition sel (c : f_comp) : list f_serial := match c with CSerial r => if r_pti r then [r] else [] | _ => [] end.
+
+Lemma elec_ptis_sel e : elec_ptis e = flat_map (fun w => flat_map sel (snd w)) (x_swbs e).
+Proof. reflexivity. Qed.
+
+Lemma sel_other k l : k <> 3%nat -> flat_map sel (filter (fun c => (ptype_of c =? k)%nat) l) = [].
+Proof.
+  intros Hk. induction l as [|c l IH]; [reflexivity|]. cbn [filter].
+  destruct (Nat.eqb_spec (ptype_of c) k) as [E|E]; [|exact IH]. cbn [flat_map]. rewrite IH, app_nil_r.
+  destruct c as [? ? ? ?|?|? ? ? ? ?|? ? ? ?|?|? ? ? ?|?|? ? ? ?|r|?]; try reflexivity.
+  cbn [sel]. cbn [ptype_of] in E. destruct (r_pti r); [|reflexivity]. unfold P_PTI_PTO in E. congruence.
+Qed.
+Lemma sel_three l : flat_map sel (filter (fun c => (ptype_of c =? 3)%nat) l) = flat_map sel l.
+Proof.
+  induction l as [|c l IH]; [reflexivity|]. cbn [filter flat_map].
+  destruct (Nat.eqb_spec (ptype_of c) 3) as [E|E]; cbn [flat_map]; rewrite IH; [reflexivity|].
+  destruct c as [? ? ? ?|?|? ? ? ? ?|? ? ? ?|?|? ? ? ?|?|? ? ? ?|r|?]; try reflexivity.
+  cbn [sel]. cbn [ptype_of] in E. destruct (r_pti r); [|reflexivity]. unfold P_PTI_PTO in E. congruence.
+Qed.
+Lemma sel_group l : flat_map sel (group_pt l) = flat_map sel l.
+Proof.
+  unfold group_pt. cbn [seq flat_map]. rewrite !flat_map_app.
+  rewrite (sel_other 0), (sel_other 1), (sel_other 2), (sel_other 4), (sel_other 5) by discriminate.
+  rewrite sel_three. cbn [flat_map app]. rewrite !app_nil_r. reflexivity.
+Qed.
+Lemma sel_reset c : sel (reset_line c) = map (set_line 1) (sel c).
+Proof. destruct c as [? ? ? ?|?|? ? ? ? ?|? ? ? ?|?|? ? ? ?|?|? ? ? ?|r|?]; try reflexivity. cbn. destruct (r_pti r); reflexivity. Qed.
+Lemma flat_map_map_out {A B C} (f : B -> C) (g : A -> list B) l : flat_map (fun a => map f (g a)) l = map f (flat_map g l).
+Proof. induction l as [|a l IH]; [reflexivity|]. cbn [flat_map]. rewrite map_app, IH. reflexivity. Qed.
+
+Lemma elec_ptis_norm e : elec_ptis (norm_electric e) = map (set_line 1) (elec_ptis e).
+Proof.
+  rewrite !elec_ptis_sel. unfold norm_electric. cbn [x_swbs]. rewrite <- flat_map_map_out.
+  induction (x_swbs e) as [|w ws IH]; [reflexivity|]. cbn [map flat_map]. rewrite IH. f_equal.
+  unfold norm_swb. cbn [snd]. rewrite sel_group. rewrite flat_map_concat_map, map_map.
+  rewrite (map_ext _ (fun c => map (set_line 1) (sel c))) by apply sel_reset.
+  rewrite <- flat_map_concat_map. apply flat_map_map_out.
+Qed.
+
+Lemma in_elec_ptis_pti e q : In q (elec_ptis e) -> r_pti q = true.
+Proof.
+  rewrite elec_ptis_sel. intros H. apply in_flat_map in H as [w [_ H]]. apply in_flat_map in H as [c [_ H]].
+  destruct c as [? ? ? ?|?|? ? ? ? ?|? ? ? ?|?|? ? ? ?|?|? ? ? ?|r|?]; try contradiction.
+  cbn [sel] in H. destruct (r_pti r) eqn:E; [|contradiction]. destruct H as [<-|[]]. exact E.
+Qed.
+
+(* the electric-side PTI/PTO found for a shaft-line subsystem: unique names make `find` hit the right one *)
+Lemma find_unique (f : f_serial -> bool) l x :
+  NoDup (map r_name l) -> In x l -> f x = true ->
+  find (fun r => String.eqb (r_name r) (r_name x)) (filter f l) = Some x.
+Proof.
+  induction l as [|a l IH]; intros ND Hin Hf; [contradiction|].
+  cbn [map] in ND. inversion ND as [|? ? Hna ND']; subst. cbn [filter].
+  destruct Hin as [->|Hin].
+  - rewrite Hf. cbn [find]. rewrite String.eqb_refl. reflexivity.
+  - destruct (f a) eqn:Fa; [|apply IH; assumption]. cbn [find].
+    destruct (String.eqb_spec (r_name a) (r_name x)) as [E|E]; [|apply IH; assumption].
+    exfalso. apply Hna. rewrite E. apply in_map, Hin.
+Qed.
+
+Definition mcomp_ok (ptis : list f_serial) (ln : nat) (c : m_comp) : Prop :=
+  match c with
+  | MPti sh q => sh = true /\ In q ptis /\ r_line q = ln
+  | _ => wf_mcomp c = true
+  end.
+
+Lemma enc_serial_head r : s_uid (enc_serial r) = r_uid r /\ s_name (enc_serial r) = r_name r.
+Proof.
+  unfold enc_serial.
+  destruct (put_stages_fields (r_stages r)
+              (sub0 (if r_pti r then P_PTI_PTO else P_CONSUMER) (if r_pti r then T_PTI_PTO_SYSTEM else T_PROPULSION_DRIVE)
+                    (r_name r) (r_rated r) (r_speed r) (r_uid r)) 1) as (_ & _ & _ & _ & _ & _ & I7 & _ & _ & I10 & _ & _).
+  rewrite I7, I10. split; reflexivity.
+Qed.
+
+Lemma dec_line_comps_shared ptis ln p l :
+  (forall q, In q ptis -> r_pti q = true) ->
+  Forall (mcomp_ok ptis ln) l ->
+  (forall q, In (MPti true q) l -> find (fun r => String.eqb (r_name r) (r_name q)) p = Some (set_line 1 q)) ->
+  forall pid, all_some (map (dec_line_comp fresh ln (Some p)) (enc_line_comps l pid)) = Some l.
+Proof.
+  intros Hpti. induction l as [|c l IH]; intros Hok Hfind pid; [reflexivity|].
+  inversion Hok as [|? ? Hc Hl]; subst.
+  assert (Hfind' : forall q, In (MPti true q) l -> find (fun r => String.eqb (r_name r) (r_name q)) p = Some (set_line 1 q))
+    by (intros q Hq; apply Hfind; right; exact Hq).
+  destruct c as [name uid eng|name uid eng gb|name uid rated speed eff|sh q]; cbn [enc_line_comps map all_some mcomp_ok] in *.
+  - rewrite (dec_enc_mengine fresh ln (Some p) _ _ _ Hc), (IH Hl Hfind'). reflexivity.
+  - rewrite (dec_enc_menginegb fresh ln (Some p) _ _ _ _ Hc), (IH Hl Hfind'). reflexivity.
+  - rewrite (dec_enc_mpropeller fresh ln (Some p) _ _ _ _ _ _ Hc), (IH Hl Hfind'). reflexivity.
+  - destruct Hc as (-> & Hin & Hln).
+    unfold dec_line_comp at 1. destruct (enc_serial_types q) as [Ec _]. destruct (enc_serial_head q) as [_ En].
+    rewrite Ec, En, (Hpti q Hin).
+    cbn [T_PTI_PTO_SYSTEM T_MAIN_ENGINE T_MAIN_ENGINE_GB MAX_CTYPE Nat.leb Nat.eqb negb].
+    rewrite (Hfind q (or_introl eq_refl)), (IH Hl Hfind').
+    subst ln. destruct q; reflexivity.
+Qed.
+
+Record hybrid_ok (e : f_electric) (ls : list (nat * list m_comp)) : Prop := {
+  hy_wf : wf_electric e = true;
+  hy_rep : representable e;
+  hy_some : elec_ptis e <> [];
+  hy_names : NoDup (map r_name (elec_ptis e));
+  hy_uids : NoDup (map r_uid (elec_ptis e));
+  hy_lines : Forall (fun w => Forall (mcomp_ok (elec_ptis e) (fst w)) (snd w)) ls;
+  hy_count : count_pti ls = List.length (elec_ptis e);
+  hy_shared : forallb (shared_on ls) (elec_ptis e) = true;
+  hy_drives : forall w c, In w (x_swbs e) -> In c (snd w) -> match c with CSerial r => r_pti r = false -> r_line r = 1%nat | _ => True end
+}.
+
+Definition group_electric (e : f_electric) : f_electric :=
+  {| x_swbs := map (fun w => (fst w, group_pt (snd w))) (x_swbs e); x_breakers := x_breakers e |}.
+
+Lemma pti_subs_uids l : forall pid q, In (MPti true q) l -> r_pti q = true ->
+  In (r_uid q) (map s_uid (filter (fun s => (s_ctype s =? T_PTI_PTO_SYSTEM)%nat) (enc_line_comps l pid))).
+Proof.
+  induction l as [|c l IH]; intros pid q Hin Hp; [contradiction|].
+  destruct Hin as [->|Hin].
+  - cbn [enc_line_comps filter]. destruct (enc_serial_types q) as [Ec _]. rewrite Ec, Hp. cbn [Nat.eqb T_PTI_PTO_SYSTEM map].
+    left. apply enc_serial_head.
+  - destruct c as [? ? ?|? ? ? ?|? ? ? ? ?|sh r]; cbn [enc_line_comps filter].
+    + unfold set_engine_gear, sub0 at 1. cbn [s_ctype T_MAIN_ENGINE T_PTI_PTO_SYSTEM Nat.eqb]. apply IH; assumption.
+    + unfold set_engine_gear, sub0 at 1. cbn [s_ctype T_MAIN_ENGINE_GB T_PTI_PTO_SYSTEM Nat.eqb]. apply IH; assumption.
+    + unfold set_engine_gear, sub0 at 1. cbn [s_ctype T_PROPELLER_LOAD T_PTI_PTO_SYSTEM Nat.eqb]. apply IH; assumption.
+    + destruct (s_ctype (enc_serial r) =? T_PTI_PTO_SYSTEM)%nat; [cbn [map]; right|]; apply IH; assumption.
+Qed.
+
+Lemma dec_enc_line_hybrid e w :
+  NoDup (map r_name (elec_ptis e)) -> Forall (mcomp_ok (elec_ptis e) (fst w)) (snd w) ->
+  dec_line fresh (Some (map (set_line 1) (elec_ptis e))) (enc_line w) = Some w.
+Proof.
+  intros ND Hok. unfold dec_line, enc_line. cbn [fst snd].
+  rewrite (dec_line_comps_shared (elec_ptis e) (fst w) _ (snd w) (in_elec_ptis_pti e) Hok); [destruct w; reflexivity|].
+  intros q Hq. rewrite Forall_forall in Hok. specialize (Hok _ Hq). cbn [mcomp_ok] in Hok. destruct Hok as (_ & Hin & _).
+  unfold ptis_for_line.
+  assert (Hp : r_pti q = true) by (eapply in_elec_ptis_pti; eassumption).
+  pose proof (find_unique
+                (fun r => existsb (String.eqb (r_uid r))
+                            (map s_uid (filter (fun s => (s_ctype s =? T_PTI_PTO_SYSTEM)%nat) (enc_line_comps (snd w) 1))))
+                (map (set_line 1) (elec_ptis e)) (set_line 1 q)) as F.
+  cbn [set_line r_name] in F. apply F.
+  - rewrite map_map. cbn [set_line r_name]. exact ND.
+  - apply in_map, Hin.
+  - cbn [r_uid]. apply existsb_exists. exists (r_uid q). split; [|apply String.eqb_refl].
+    apply pti_subs_uids; assumption.
+Qed.
+
+Definition patch_comp (ls : list (nat * list m_comp)) (c : f_comp) : f_comp :=
+  match c with
+  | CSerial r => if r_pti r then CSerial {| r_pti := r_pti r; r_name := r_name r; r_uid := r_uid r; r_rated := r_rated r;
+                                            r_speed := r_speed r; r_line := line_of_pti ls r; r_stages := r_stages r |}
+                 else c
+  | _ => c
+  end.
+Lemma patch_lines_eq ls e : patch_lines ls e = {| x_swbs := map (fun w => (fst w, map (patch_comp ls) (snd w))) (x_swbs e);
+                                                    x_breakers := x_breakers e |}.
+Proof. reflexivity. Qed.
+
+Lemma line_of_shared e ls r : hybrid_ok e ls -> In r (elec_ptis e) -> line_of_pti ls (set_line 1 r) = r_line r.
+Proof.
+  intros H Hin. unfold line_of_pti. cbn [set_line r_uid r_line].
+  pose proof (hy_shared _ _ H) as Hs. rewrite forallb_forall in Hs. specialize (Hs r Hin). unfold shared_on in Hs.
+  match goal with |- match find ?f ls with _ => _ end = _ => destruct (find f ls) as [w|] eqn:F end.
+  - apply find_some in F as [Hw Hex]. apply existsb_exists in Hex as [c [Hc Hu]].
+    pose proof (hy_lines _ _ H) as Hl. rewrite Forall_forall in Hl. specialize (Hl w Hw). rewrite Forall_forall in Hl.
+    specialize (Hl c Hc). destruct c as [? ? ?|? ? ? ?|? ? ? ? ?|sh q]; try discriminate. destruct sh; [|discriminate].
+    cbn [mcomp_ok] in Hl. destruct Hl as (_ & Hq & Hln). apply String.eqb_eq in Hu.
+    assert (q = r); [|subst; symmetry; exact Hln].
+    pose proof (hy_uids _ _ H) as ND. clear -ND Hq Hin Hu.
+    induction (elec_ptis e) as [|a l IH]; [contradiction|]. cbn [map] in ND. inversion ND as [|? ? Hna ND']; subst.
+    destruct Hq as [->|Hq], Hin as [->|Hin]; [reflexivity| | |apply IH; assumption].
+    + exfalso. apply Hna. rewrite Hu. apply in_map, Hin.
+    + exfalso. apply Hna. rewrite <- Hu. apply in_map, Hq.
+  - exfalso. apply existsb_exists in Hs as [w [Hw Hex]]. pose proof (find_none _ _ F w Hw) as N. cbv beta in N. congruence.
+Qed.
+
+Theorem dec_enc_system_hybrid name e ls : hybrid_ok e ls ->
+  dec_system fresh (enc_system (SHybrid name e ls)) = Some (SHybrid name (group_electric e) ls).
+Proof.
+  intros H. unfold dec_system, enc_system. cbn [y_ptype y_swbs y_lines y_name].
+  rewrite (dec_enc_electric fresh e (hy_wf _ _ H) (hy_rep _ _ H)). rewrite elec_ptis_norm.
+  destruct (elec_ptis e) as [|p0 ps] eqn:Ept; [exfalso; apply (hy_some _ _ H); exact Ept|].
+  cbn [map]. change (set_line 1 p0 :: map (set_line 1) ps) with (map (set_line 1) (p0 :: ps)). rewrite <- Ept.
+  rewrite map_map.
+  rewrite (all_some_map (fun w => dec_line fresh (Some (map (set_line 1) (elec_ptis e))) (enc_line w)) (fun w => w)).
+  2:{ intros w Hw. apply dec_enc_line_hybrid; [apply (hy_names _ _ H)|].
+      pose proof (hy_lines _ _ H) as Hl. rewrite Forall_forall in Hl. apply Hl, Hw. }
+  rewrite map_id, map_length, (hy_count _ _ H), Nat.eqb_refl. cbn [andb].
+  assert (Sh : forallb (shared_on ls) (map (set_line 1) (elec_ptis e)) = true).
+  { rewrite forallb_forall. intros r' Hr'. apply in_map_iff in Hr' as [r [<- Hr]].
+    pose proof (hy_shared _ _ H) as Hs. rewrite forallb_forall in Hs. exact (Hs r Hr). }
+  rewrite Sh. f_equal. f_equal.
+  rewrite patch_lines_eq. unfold norm_electric, group_electric. cbn [x_swbs x_breakers]. f_equal.
+  rewrite map_map. apply map_ext_in. intros w Hw. unfold norm_swb. cbn [fst snd]. f_equal.
+  rewrite group_pt_map_reset, map_map.
+  rewrite <- (map_id (group_pt (snd w))) at 2. apply map_ext_in. intros c Hc.
+  assert (Hc' : In c (snd w)) by (eapply Permutation_in; [apply group_pt_perm|exact Hc]).
+  destruct c as [? ? ? ?|?|? ? ? ? ?|? ? ? ?|?|? ? ? ?|?|? ? ? ?|r|?]; try reflexivity.
+  cbn [reset_line patch_comp set_line r_pti]. destruct (r_pti r) eqn:Ep.
+  - assert (Hin : In r (elec_ptis e)).
+    { rewrite elec_ptis_sel. apply in_flat_map. exists w. split; [exact Hw|]. apply in_flat_map. exists (CSerial r).
+      split; [exact Hc'|]. cbn [sel]. rewrite Ep. left. reflexivity. }
+    rewrite (line_of_shared e ls r H Hin). destruct r; cbn in *; subst; reflexivity.
+  - pose proof (hy_drives _ _ H w (CSerial r) Hw Hc' Ep) as D. destruct r; cbn in *; subst; reflexivity.
+Qed.
+
+Lemma elec_ptis_group e : elec_ptis (group_electric e) = elec_ptis e.
+Proof.
+  rewrite !elec_ptis_sel. unfold group_electric. cbn [x_swbs].
+  induction (x_swbs e) as [|w ws IH]; [reflexivity|]. cbn [map flat_map snd]. rewrite IH, sel_group. reflexivity.
+Qed.
+
+Lemma group_electric_idem e : group_electric (group_electric e) = group_electric e.
+Proof.
+  unfold group_electric. cbn [x_swbs x_breakers]. f_equal. rewrite map_map. apply map_ext. intros w. cbn [fst snd].
+  rewrite group_pt_idem. reflexivity.
+Qed.
+
+Lemma hybrid_ok_group e ls : hybrid_ok e ls -> hybrid_ok (group_electric e) ls.
+Proof.
+  intros H. constructor; rewrite ?elec_ptis_group; try apply H.
+  - pose proof (hy_wf _ _ H) as W. unfold wf_electric, group_electric in *. cbn [x_swbs]. rewrite forallb_forall in *.
+    intros w Hw. apply in_map_iff in Hw as [w' [<- Hw']]. cbn [snd]. rewrite (forallb_perm _ _ _ (group_pt_perm _)). apply W, Hw'.
+  - destruct (hy_rep _ _ H) as (Hids & Hne & Hb). unfold representable, group_electric. cbn [x_swbs x_breakers].
+    rewrite map_length, map_map. cbn [fst]. repeat split; [exact Hids| |exact Hb].
+    apply Forall_map. eapply Forall_impl; [|exact Hne]. intros w Hw. cbn [snd]. apply group_pt_nonempty. exact Hw.
+  - intros w c Hw Hc. unfold group_electric in Hw. cbn [x_swbs] in Hw. apply in_map_iff in Hw as [w' [<- Hw']]. cbn [snd] in Hc.
+    apply (hy_drives _ _ H w' c Hw'). eapply Permutation_in; [apply group_pt_perm|exact Hc].
+Qed.
+
+End Hybrid.
